@@ -56,6 +56,56 @@ CLAIMS = {
   text="The search histories of C13 over 20 s and 2-3 virtual hours plus lone searches over three virtual days: each chain instant (start, +1 s, +2 s ... doubling to 3600 s, relative to the previous actual query) must produce its query on every interface and family (B1), gaps never exceed one hour (B3), and every other query for the same question needs a refresh mark (80/85/90/95 %) of a live cached record or an interface arrival (B2).",
   note="Follow-up and verify queries ask other questions (instance ANY/SRV/TXT) and are not judged here.",
   ref="§6 C19"),
+ "C03": dict(
+  technique="runtime trace monitor against a delivered-record history model: every ServiceResolved event is checked against the lives (reception, TTL, goodbye, cache-flush displacement, verify cuts) of the records actually delivered to the daemon",
+  text="Thousands of browser scenarios (1-3 scripted services, TTLs 1 s..4500 s per record type, shared hosts, several addresses, v4/v6; announce / split announce / cache-flush updates / goodbye / partial goodbye / vanish / verify / foreign records; responders answering never / always / sometimes; loss, duplication and delay; lazy, eager and oversleep stepping; horizon 3 x largest TTL): every field of every ServiceResolved must come from records delivered for that instance and live at that instant (S1-S4).",
+  note="Records keep one spelling and one cache-flush setting per identity. Same-instant deliveries are judged leniently (before/during). Trusts the history model (harness/src/model.rs).",
+  ref="§6 C03"),
+ "C04": dict(
+  technique="runtime trace monitor over enumerated delivery orders and packet splits: completeness instants computed from the delivered records, ServiceFound/ServiceResolved required at that very instant; follow-up questions timed on the simulated wire",
+  text="The 4-7 records of an instance in every order and every split into up to four packets (exhaustive for 4 records quick / 5 thorough, sampled beyond), answer or additional section, duplicates, foreign records, 1-3 instances, hostile labels, host names in another letter case; PTR-only deliveries with the daemon's follow-up questions answered on try 1/2/3/never: Found then Resolved at the instant the last needed record arrives (F1), follow-ups within 500 ms, 500 ms apart, at most three (F2), reported name is the registered one (F3).",
+  note="No obligation for follow-up questions about names containing '.' or '\\' (re-encoded differently, see known findings of C08).",
+  ref="§6 C04"),
+ "C05": dict(
+  technique="runtime trace monitor against the delivered-record history model: departure instants (goodbye + 1 s, PTR expiry, verify timeout) computed from the history, every ServiceRemoved and every departure judged both ways",
+  text="The browser scenarios of C03 with TTLs 1 s..4500 s, verify timeouts {0, 1 ms, 1 s, 10 s, 1 h}, refresh queries answered or not, lossy deliveries, horizons 3 x largest TTL: each departure must produce exactly one ServiceRemoved on time (D2-D4) and each ServiceRemoved must be explained by a departure (D5).",
+  note="A removal up to one second before a record's expiry is accepted (the crate treats the last second of a record as gone).",
+  ref="§6 C05"),
+ "C06": dict(
+  technique="runtime differential monitor against a responder reference model: for each injected query the response required by the statement is computed from the API history and compared with the daemon's egress of the iteration that consumed the query",
+  text="Thousands of responder scenarios (1-3 interfaces on differing subnets, v4/v6; 1-4 services with subtypes, shared hosts, upper-case letters; registered, re-registered, unregistered) with 10-39 queries each at any time, 1-8 questions among type/subtype/meta PTR, SRV, TXT, ANY, A/AAAA (case variants), foreign names, from port 5353 or an ephemeral port, over IPv4 or IPv6, with and without known answers: record sets, values, link-local addresses only, destination, ID and question echo (Q1-Q6).",
+  note="A query is judged only if nothing else was due at that instant and not within 400 ms of the end of probing. Renamed services are C08's workload.",
+  ref="§6 C06"),
+ "C08": dict(
+  technique="runtime trace monitor over the simulated wire of one to three real daemons: injected conflicting responses and competing probes at every probe step, a label-level model of the renaming rule, pairwise antisymmetry runs, and a final-state check over a dense grid of start offsets",
+  text="Part R: conflicting SRV/TXT/A/AAAA responses (also in another letter case) at every millisecond of probing against hostile names (existing suffixes up to 2^32-1, 57-63-byte labels, dots, non-ASCII), then questions of every type for old and new names, then unregister/shutdown: lost name never used again, new name by the rule, probed three times, reported by NameChange, used in every later packet, encodable (N1, N4, N5). Part T: record-set pairs shown to each other after the 1st/2nd/3rd probe, sorted / reversed / other case: one-second wait then three probes (N2), opposite verdicts (N3), earlier data yields (N3b). Part D: two or three daemons on one link at offsets from a dense grid x jitters: exactly one keeps each original name, all announced, no shared names (N6).",
+  note="A counter at 2^32-1 may count on or start a fresh suffix. A conflict after the third probe is 250 ms old is not judged. Two known findings for instance names with a dot inside the label (known_findings.json).",
+  ref="§6 C08"),
+ "C09": dict(
+  technique="runtime trace monitor over the simulated wire: goodbye packets after unregister/shutdown parsed independently and compared with the names last announced per interface and family; later queries judged with the responder model of C06",
+  text="Register / unregister (while probing, when announced, twice, unknown, other letter case) / shutdown histories over 1-4 services on 1-3 interfaces, one scenario in five with the service or host renamed by a conflict on one interface: status reply (U1), goodbye with PTR, subtype PTR, SRV, TXT and the link's addresses, all TTL 0, under the announced names, on each announced interface and family in use (U2), nowhere else (U3), repeated once 120 ms later (U4), no announcement or answer afterwards while other services answer unchanged (U5, U6).",
+  note="Re-registration right after unregister is kept out (self-conflict, DESIGN §12).",
+  ref="§6 C09"),
+ "C10": dict(
+  technique="runtime monitor on both sides: responder reference model with known answers around the half-TTL boundary; every query of a browsing daemon parsed and its known answers checked against the delivered-record history",
+  text="Responder: the C06 scenarios with 1-4 known answers per query drawn from the responder's own records with TTL in {0, 1, half-1, half, half+1, full, 2^32-1}, near misses (other RDATA, class, case), with/without cache-flush bit (K1, K2). Querier: a PTR of TTL {4, 10, 20, 120} s cached, the type browsed again at every age 0-100 % in 1 % steps and every 20 ms within 1.2 s of half life; every later query parsed: only shared records held with at least half their life left (K3), written with the remaining TTL (K4), on every interface and family (K5).",
+  note="Ages within one second of the half life may or may not be listed; case-only matches may or may not suppress.",
+  ref="§6 C10"),
+ "C17": dict(
+  technique="runtime trace monitor against the delivered-record history model for address records: every AddressesFound / AddressesRemoved / SearchTimeout / SearchStopped of a hostname search judged both ways",
+  text="Hostname histories: resolve_hostname / stop with the name in any letter case, timeouts {none, 1, 999, 1000, 1500, 7000 ms, 1 h}, a responder announcing 1-2 addresses at a time (v4/v6, owner in any case, TTLs 1-120 s, one of up to two interfaces), goodbyes, silent loss, queries answered or not, foreign records; observed 150 s past the last call; lazy and eager stepping: reported addresses are live and complete (H1), removals on time (H2), timeouts and stops exact (H3, H4).",
+  note="Each address record keeps one owner spelling and one TTL; late wake-ups are C11's quantifier.",
+  ref="§6 C17"),
+ "C18": dict(
+  technique="runtime monitor: a selection model (call order, last match wins, later interfaces) compared at checkpoints with the daemon's interface table read from hooked state and with the links a fresh query leaves on; per-packet link/subnet rules on the simulated wire; event and cache-snapshot checks after interface loss",
+  text="Part S: 1-4 interfaces (v4/v6/both, two subnets on one interface, loopback) x 1-6 operations among enable/disable with every IfKind (All, IPv4, IPv6, Name, Addr present/absent/later, Loopback, IndexV4/V6, Predicate) and table edits (address added/removed/moved, interface down/up/added/removed), announcements injected on links that are on or off (I3). Part E: explicit and automatic addresses: packets about a service only where it has an address in the link's subnet, carrying only that link's addresses; automatic services follow new addresses (I1, I2). Part P: instances learned over two interfaces, then one disappears or is disabled wholly or by family: ServiceRemoved / re-resolved with what is left, nothing learned there reported again, nothing of it left in the cache (I4, I5).",
+  note="Nothing is judged for one interface-check interval after a table edit (the daemon cannot know yet).",
+  ref="§6 C18"),
+ "C20": dict(
+  technique="runtime monitor of state size: the daemon's own metrics, a hooked full-state snapshot (map keys, records, timers, retransmissions) and paired 1x/4x traffic runs compared",
+  text="Traffic scenarios (40-400 packets: announcements of types nobody browses, SRV/TXT/address records without PTR, NSEC, instances that come and go, endless re-announcements; TTLs to 120 s; with/without browse, hostname search, own registration, accept_unsolicited): after stopping every search and waiting max TTL + 3 s nothing is cached and at most the interface-check timer is left (G1); at checkpoints the cache holds no more than the open searches relate to (G2); 4x the traffic ends with the same counts (G3).",
+  note="G2 allowance 2 x related + 8; G3 flags growth by more than 2x and more than 6. Four known findings (timer heap, PTR-less records, NSEC) in known_findings.json.",
+  ref="§6 C20"),
 }
 
 NOT_YET = "monitor not built yet (work in progress; the technique family applies, see DESIGN.md §6)"
